@@ -60,6 +60,20 @@ class SymDType:
         return "SymDType(%s)" % self.name
 
 
+def np_view(x):
+    return x.view(_np.ndarray) if isinstance(x, _np.ndarray) else x
+
+
+def _is_int_operand(x):
+    if isinstance(x, SymArray):
+        return x._is_int()
+    if isinstance(x, (bool, int, _np.integer, SymInt)):
+        return True
+    if isinstance(x, _np.ndarray):
+        return x.dtype.kind in "iub"
+    return False
+
+
 class SymArray(_np.ndarray):
     """object ndarray carrying a modelled numpy dtype: storing a real-valued term
     into an integer buffer truncates (C cast), an in-place float operation on an
@@ -72,6 +86,22 @@ class SymArray(_np.ndarray):
 
     def __array_finalize__(self, obj):
         self.sdtype = getattr(obj, "sdtype", "float64")
+
+    _INT_PRESERVING = ("add", "subtract", "multiply", "power", "negative", "absolute", "positive")
+
+    def __array_ufunc__(self, ufunc, method, *inputs, out=None, **kwargs):
+        "numpy's result-type rule for the modelled dtype: integer only if every operand is integer-typed"
+        plain = [np_view(x) for x in inputs]
+        kw = dict(kwargs)
+        if out is not None:
+            kw["out"] = tuple(np_view(o) for o in out)
+        res = getattr(ufunc, method)(*plain, **kw)
+        if out is not None:
+            return out[0] if len(out) == 1 else out
+        if not isinstance(res, _np.ndarray) or res.dtype != object:
+            return res
+        allint = ufunc.__name__ in self._INT_PRESERVING and all(_is_int_operand(x) for x in inputs)
+        return SymArray(res, "int64" if allint else "float64")
 
     @property
     def dtype(self):
@@ -337,6 +367,26 @@ class NumpyProxy:
 
     def ones_like(self, a, dtype=None, **kw):
         return self._alloc("ones_like", a, dtype, True, 1.0, kw)
+
+    # ---- dtype arithmetic on modelled dtypes (delegated to real numpy on the modelled names)
+    def _dt(self, d):
+        if isinstance(d, SymDType):
+            return _np.dtype(d.name), True
+        if isinstance(d, SymArray):
+            return _np.dtype(d.sdtype), True
+        if isinstance(d, _np.ndarray) and d.dtype == object:
+            return _np.dtype("float64"), True
+        return d, False
+
+    def promote_types(self, a, b):
+        (da, sa), (db, sb) = self._dt(a), self._dt(b)
+        r = _np.promote_types(da, db)
+        return SymDType(r.name) if (sa or sb) else r
+
+    def result_type(self, *args):
+        conv = [self._dt(a) for a in args]
+        r = _np.result_type(*[c[0] for c in conv])
+        return SymDType(r.name) if any(c[1] for c in conv) else r
 
     # ---- merged comparisons (only when merge_compare is switched on by a harness)
     def _cmpfn(self, name, f, a, b, out=None):
